@@ -105,3 +105,11 @@ func (c *Config) VerifPath() string     { return c.path }
 func (c *Config) VerifBuildRouter()     { c.buildRouter() }
 
 func VerifDiffTunnels(old, new []Tunnel) []Tunnel { return diffTunnels(old, new) }
+
+// VerifStartLocalServer starts the local HTTP API (POST /api/unpublish/{hostname},
+// /api/release/{hostname}, /api/reload, ...) on the given listener, as Start() does when a
+// ServerListener is configured.
+func (c *Client) VerifStartLocalServer(ctx context.Context, l net.Listener) {
+	c.ServerListener = l
+	c.startLocalServer(ctx)
+}
